@@ -522,6 +522,14 @@ fn judge_inner<T: Elem>(st: &mut Stats, class: &str, cs: &Case<T::M>) {
     let mulmode = if la == 0 || lb == 0 { Mode::ZeroAny } else { Mode::Strict };
     let sum = cx.poly("add", catch(|| &pa + &pb), &wadd, Mode::Strict, ma + mb);
     cx.poly("add-owned", catch(|| pa.clone() + pb.clone()), &wadd, Mode::Strict, ma + mb);
+    // the same owned forms on operands whose coefficient vectors carry SPARE CAPACITY (len < capacity, as after trim / pop /
+    // push): the length, never the capacity, decides
+    let spare = |v: &Vec<T>, k: usize| -> Polynomial<T> { let mut w: Vec<T> = Vec::with_capacity(v.len() + k); w.extend(v.iter().cloned()); Polynomial::new(w) };
+    let (ka, kb) = (1 + (la * 3 + lb) % 9, (la + 2 * lb) % 4);
+    cx.poly("add-owned", catch(|| spare(&a, ka) + spare(&b, kb)), &wadd, Mode::Strict, ma + mb);
+    cx.poly("add-owned", catch(|| spare(&b, ka) + spare(&a, kb)), &wadd, Mode::Strict, ma + mb);
+    cx.poly("sub-owned", catch(|| spare(&a, ka) - spare(&b, kb)), &wsub, Mode::Strict, ma + mb);
+    cx.poly("mul-owned", catch(|| spare(&a, ka) * spare(&b, kb)), &wmul, mulmode, ma * mb);
     cx.poly("add", catch(|| &pb + &pa), &wadd, Mode::Strict, ma + mb);
     let dif = cx.poly("sub", catch(|| &pa - &pb), &wsub, Mode::Strict, ma + mb);
     cx.poly("sub-owned", catch(|| pa.clone() - pb.clone()), &wsub, Mode::Strict, ma + mb);
@@ -750,6 +758,37 @@ fn sweep_case<M: MF>(sw: &Sweep<M>, ia: usize, ib: usize) -> Case<M> {
 /// Aliasing and state: the same object on both sides of an operator, and one live polynomial put through a sequence of
 /// queries (derivative, derivative_n, eval, degree) interleaved with in-place edits (index write, coeffs().push/pop,
 /// trim, clone-and-continue), compared with a plain coefficient list after every step.
+/// Evaluation far out: a polynomial whose coefficients above degree 1 are stored zeros (padding, or the result of a
+/// cancelled difference) has the value c0 + c1*x, representable for |x| up to 2^1000; an evaluation scheme must not form
+/// powers of x that the definition never needs (0 * inf = NaN).
+fn huge_points(st: &mut Stats, rng: &mut Rng) {
+    st.next_case();
+    let len = rng.usize(2, 9);
+    let (c0, c1) = (rng.int(-5, 5) as f64, rng.nzint(5) as f64);
+    let k = rng.int(300, 1000) as i32;
+    let x = 2f64.powi(k) * if rng.bool() { 1.0 } else { -1.0 };
+    let want = c1 * x + c0;
+    let mut c = vec![0.0f64; len]; c[0] = c0; c[1] = c1;
+    let via_sub = len >= 3 && rng.bool();
+    let p = if via_sub { let mut u = c.clone(); let mut v = vec![0.0; len]; let t = rng.nzint(4) as f64; u[len - 1] = t; v[len - 1] = t; &Polynomial::new(u) - &Polynomial::new(v) } else { Polynomial::new(c.clone()) };
+    let desc = || format!("p = {:?}{} (size {}), x = {}2^{}", c, if via_sub { " obtained as a difference whose leading terms cancel" } else { "" }, len, if x < 0.0 { "-" } else { "" }, k);
+    st.eval();
+    match catch(|| (p.eval(x), p.derivative_at(x, 0), p.derivative_at(x, 1))) {
+        Outcome::Ok((v, d0, d1)) => { if v != want || d0 != want || d1 != c1 { st.violation("C11:eval:f64:huge-point", format!("eval = {:e}, derivative_at(x,0) = {:e}, derivative_at(x,1) = {:e}; expected {:e}, {:e}, {:e}; {}", v, d0, d1, want, want, c1, desc())); } }
+        o => st.violation("C11:eval:f64:huge-point", format!("{}; {}", o.describe(), desc())),
+    }
+    let axis = rng.bool();
+    let z = if axis { Cmplx::new(x, 0.0) } else { Cmplx::new(0.0, x) };
+    let pc = Polynomial::new(c.iter().map(|v| Cmplx::new(*v, 0.0)).collect::<Vec<_>>());
+    let wz = if axis { Cmplx::new(c1 * x + c0, 0.0) } else { Cmplx::new(c0, c1 * x) };
+    st.eval();
+    match catch(|| pc.eval(z)) {
+        Outcome::Ok(v) => if !(v.real == wz.real && v.imag == wz.imag) { st.violation("C11:eval:Cmplx:huge-point", format!("eval({:?}) = {:?} expected {:?}; {}", z, v, wz, desc())); },
+        o => st.violation("C11:eval:Cmplx:huge-point", format!("{}; {}", o.describe(), desc())),
+    }
+    st.count("huge-point-cases");
+}
+
 fn alias_and_history(st: &mut Stats, rng: &mut Rng) {
     st.next_case();
     fn norm(mut c: Vec<Rat>) -> Vec<Rat> { while c.last().map_or(false, |x| x.is_zero()) { c.pop(); } c }
@@ -770,16 +809,32 @@ fn alias_and_history(st: &mut Stats, rng: &mut Rng) {
     // history on one live object
     let n = rng.usize(1, 6);
     let mut m = gen(rng, n);
-    let mut q = Polynomial::new(m.clone());
+    let mut q = { let mut w: Vec<Rat> = Vec::with_capacity(n + rng.usize(0, 6)); w.extend(m.iter().cloned()); Polynomial::new(w) };
     let mut log: Vec<String> = vec![format!("start {:?}", m)];
     for _ in 0..rng.usize(3, 12) {
-        let op = rng.below(9);
+        let op = rng.below(12);
         let v = Rat::int(rng.int(-6, 6));
         match op {
             0 | 1 | 2 => { if m.is_empty() { continue; } log.push("derivative()".into()); st.eval(); match catch(|| coeffs_of(&q.derivative())) { Outcome::Ok(g) => if norm(g.clone()) != norm(deriv(&m)) { st.violation("C11:history:derivative:Rat:stale-or-wrong", format!("derivative = {:?} expected {:?} after {:?}", g, deriv(&m), log)); return; }, Outcome::Overflow => return, o => { st.violation("C11:history:derivative:Rat:refused", format!("{} after {:?}", o.describe(), log)); return; } } }
             3 => { if m.is_empty() { continue; } let k = rng.usize(0, 3); log.push(format!("derivative_n({})", k)); let mut w = m.clone(); for _ in 0..k { w = deriv(&w); } if w.is_empty() && k > 0 && m.len() <= k { continue; } st.eval(); match catch(|| coeffs_of(&q.derivative_n(k))) { Outcome::Ok(g) => if norm(g.clone()) != norm(w.clone()) { st.violation("C11:history:derivative_n:Rat:stale-or-wrong", format!("derivative_n({}) = {:?} expected {:?} after {:?}", k, g, w, log)); return; }, Outcome::Overflow => return, _ => {} } }
             4 => { if m.is_empty() { continue; } let x = Rat::int(rng.int(-3, 3)); log.push(format!("eval({:?})", x)); let mut val = Rat::ZERO; for k in (0..m.len()).rev() { val = val * x + m[k]; } st.eval(); match catch(|| q.eval(x)) { Outcome::Ok(g) => if g != val { st.violation("C11:history:eval:Rat:stale-or-wrong", format!("eval = {:?} expected {:?} after {:?}", g, val, log)); return; }, Outcome::Overflow => return, o => { st.violation("C11:history:eval:Rat:refused", format!("{} after {:?}", o.describe(), log)); return; } } }
             5 => { if m.is_empty() { continue; } let i = rng.usize(0, m.len() - 1); log.push(format!("p[{}] = {:?}", i, v)); m[i] = v; if !catch(|| q[i] = v).is_ok() { st.violation("C11:history:index_mut:Rat:refused", format!("after {:?}", log)); return; } }
+            9 | 10 => { // the live object itself is CONSUMED by an owned operator (it may carry spare capacity from earlier pops)
+                let k = rng.usize(0, 8); let o = gen(rng, k); let sub = op == 10 && rng.bool(); let left = rng.bool();
+                log.push(format!("p = {} {} {:?}", if left { "p" } else { "other" }, if sub { "-" } else { "+" }, o));
+                let len = m.len().max(o.len());
+                let at = |c: &Vec<Rat>, i: usize| if i < c.len() { c[i] } else { Rat::ZERO };
+                let want: Vec<Rat> = (0..len).map(|i| if !sub { at(&m, i) + at(&o, i) } else if left { at(&m, i) - at(&o, i) } else { at(&o, i) - at(&m, i) }).collect();
+                let taken = std::mem::replace(&mut q, Polynomial::new(vec![]));
+                let other = Polynomial::new(o.clone());
+                st.eval();
+                match catch(move || match (sub, left) { (false, true) => taken + other, (false, false) => other + taken, (true, true) => taken - other, (true, false) => other - taken }) {
+                    Outcome::Ok(r) => { q = r; if norm(coeffs_of(&q)) != norm(want.clone()) { st.violation("C11:history:owned-operator:Rat:wrong-value", format!("result {:?} expected {:?} after {:?}", coeffs_of(&q), want, log)); return; } m = coeffs_of(&q); }
+                    Outcome::Overflow => return,
+                    o => { st.violation("C11:history:owned-operator:Rat:refused", format!("{} after {:?}", o.describe(), log)); return; }
+                }
+            }
+            11 => { if m.is_empty() { continue; } log.push("trim()".into()); while m.len() > 1 && m[m.len() - 1].is_zero() { m.pop(); } if !catch(|| q.trim()).is_ok() { st.violation("C11:history:trim:Rat:refused", format!("after {:?}", log)); return; } if norm(coeffs_of(&q)) != norm(m.clone()) { st.violation("C11:history:trim:Rat:wrong-value", format!("{:?} after {:?}", coeffs_of(&q), log)); return; } m = coeffs_of(&q); }
             6 => { log.push(format!("coeffs().push({:?})", v)); m.push(v); q.coeffs().push(v); }
             7 => { if m.len() < 2 { continue; } log.push("coeffs().pop()".into()); m.pop(); q.coeffs().pop(); }
             _ => { log.push("clone-and-continue".into()); let c2 = q.clone(); q = c2; }
@@ -841,6 +896,7 @@ pub fn run(ctx: &Ctx) -> Report {
                 judge::<Cmplx>(st, cl, &cs);
                 judge::<CRat>(st, cl, &cs);
                 alias_and_history(st, rng);
+                huge_points(st, rng);
             }
         }
     });
